@@ -44,11 +44,17 @@ type nestedCase struct {
 var predicates = map[string]func(r []val.Val) bool{
 	"v IS NOT NULL": func(r []val.Val) bool { return !r[cV].IsNull() },
 	"s IS NULL":     func(r []val.Val) bool { return r[cS].IsNull() },
-	"o1 >= 0":       func(r []val.Val) bool { return !r[cO1].IsNull() && r[cO1].AsInt() >= 0 },
-	"p2 = 0":        func(r []val.Val) bool { return !r[cP2].IsNull() && r[cP2].AsInt() == 0 },
-	"id % 2 = 0":    func(r []val.Val) bool { return r[cID].AsInt()%2 == 0 },
-	"id % 3 <> 0":   func(r []val.Val) bool { return r[cID].AsInt()%3 != 0 },
-	"id > 2":        func(r []val.Val) bool { return r[cID].AsInt() > 2 },
+	"o1 >= 0": func(r []val.Val) bool { // integers (also spelled as strings) compare as integers, floats as floats
+		if i, ok := ref.AsInteger(r[cO1]); ok {
+			return i >= 0
+		}
+		f, ok := ref.AsFloat(r[cO1])
+		return ok && f >= 0
+	},
+	"p2 = 0":      func(r []val.Val) bool { return !r[cP2].IsNull() && r[cP2].AsInt() == 0 },
+	"id % 2 = 0":  func(r []val.Val) bool { return r[cID].AsInt()%2 == 0 },
+	"id % 3 <> 0": func(r []val.Val) bool { return r[cID].AsInt()%3 != 0 },
+	"id > 2":      func(r []val.Val) bool { return r[cID].AsInt() > 2 },
 	// outer only (need an inner analytic column)
 	"a1 IS NOT NULL": func(r []val.Val) bool { return !r[len(cols)].IsNull() },
 	"a1 IS NULL":     func(r []val.Val) bool { return r[len(cols)].IsNull() },
@@ -336,8 +342,13 @@ func nestedInDomain(c nestedCase) bool {
 			}
 		}
 	}
+	for _, ic := range c.Inner {
+		if !partitionKeysInDomain(c.Rows, ic) {
+			return false
+		}
+	}
 	for _, oc := range c.Outer {
-		if !callInDomain(oc) {
+		if !callInDomain(oc) || !partitionKeysInDomain(c.Rows, oc) {
 			return false
 		}
 		lim := len(cols) + len(c.Inner)
@@ -497,6 +508,16 @@ func checkNested(c nestedCase) (fw.Outcome, *fw.Violation) {
 	}
 	for _, ic := range c.Inner {
 		o.Classes = append(o.Classes, "inner_fn:"+ic.Fn)
+	}
+	bigSeen := map[string]bool{}
+	for _, x := range append(append([]anaCase(nil), c.Inner...), c.Outer...) {
+		for _, cl := range bigKeyClasses(c.Rows, x) {
+			if !bigSeen[cl] {
+				bigSeen[cl] = true
+				o.Classes = append(o.Classes, cl)
+				fw.AddExtra("nested/"+cl, 1)
+			}
+		}
 	}
 	linked, usesA := false, ""
 	aPart, aOrd, aArg := false, false, false
